@@ -102,6 +102,9 @@ func DialClient(ctx context.Context, t *Torrent, addr netip.AddrPort, cryptoOpti
 	cryptoHandshake :=
 		cryptoOptions.PreferCryptoHandshake &&
 			cryptoOptions.AllowCryptoHandshake
+	if cryptoOptions.ForceCryptoHandshake {
+		cryptoHandshake = true
+	}
 
 again:
 	if err := ctx.Err(); err != nil {
